@@ -251,7 +251,8 @@ def c06_wrap_fwd_block(n: int, a: int, b: int, c: int, d: int) -> bool:
         return True
     got = []
     for x in f:
-        got += [l for l in labels_under(x._node) if l != 500]
+        nd = x._node
+        got += [ch.label for ch in nd.body] if nd.label == 500 else [nd.label]
     return got == list(range(c, d))
 
 
